@@ -33,7 +33,14 @@ EXPLANATION = (
     "concrete evaluator (no import of twisted) on sample streams of 2-4 messages, delivered at once and in every 2-way (and, for "
     "short streams or in the thorough tier, every 3-way) segmentation, with all instance attributes threaded from one dataReceived "
     "call to the next (pause/resume, raw/line mode switches and setLineMode(extra) included); the event trace up to the first close "
-    "request must equal the whole-stream trace and an independent reference framing. Not decided: invariance for all streams "
+    "request must equal the whole-stream trace and an independent reference framing. Pause/resume from inside the handler (named by the "
+    "statement): in the same model the first message's handler calls pauseProducing() and resumeProducing() - at once (LineReceiver) or after "
+    "the delivery (LineReceiver, IntNStringReceiver) - and the messages must be those of plain sequential delivery; LineReceiver must also "
+    "survive a handler that calls dataReceived itself (_busyReceiving). Structurally, every receiver has consumed a message (offset / buffer / "
+    "state) before the call-out that hands it out (intn/offset-advanced-before-callout, netstring/state-consumed-before-callout one helper "
+    "level deep, the LineReceiver split/swap rules). Evaluated but only reported as notes, being outside the statement or not holding today: "
+    "handlers that call dataReceived or raise on the other receivers, and IntNStringReceiver with resumeProducing() from inside the handler. "
+    "Not decided: invariance for all streams "
     "(only the sample streams are enumerated)."
 )
 ASSUMPTIONS = [
@@ -383,7 +390,8 @@ def _intn(ctx):
                    and any(src(t) == src(sp[1]) for t in x.ast.targets) and src(x.ast.value) == end_name]
             w = g.must_pass([un], adv, to=[n])
             ctx.check(bool(adv) and w is None, "intn/offset-advanced-before-callout", ctx.construct(q, call),
-                      "the read offset is not moved past the message before stringReceived runs (the message is parsed again)", witness=g.describe(w))
+                      "the read offset is not moved past the message before stringReceived runs: a handler that calls pauseProducing() leaves the loop with the "
+                      "old offset and the message is parsed and delivered again after resumeProducing()", witness=g.describe(w))
     if sp:
         off = src(sp[1])
         rem = [n for n in self_assigns(g, "_unprocessed") if (lambda s_: s_ and src(s_[0]) == data_var and s_[1] is not None and src(s_[1]) == off and s_[2] is None)(slice_parts(g.node(n).ast.value))]
@@ -589,7 +597,7 @@ def _netstring(ctx):
         qcp = Q + "NetstringReceiver._consumePayload"
         ext = call_nodes(gcp, "self._extractPayload")
         comma = call_nodes(gcp, "self._checkForTrailingComma")
-        proc = call_nodes(gcp, "self._processPayload")
+        proc = call_nodes(gcp, "self._processPayload", "self.stringReceived")
         inc = _raises(gcp, "IncompleteNetstring")
         ctx.need(ext and proc, "_extractPayload / _processPayload calls in _consumePayload")
         after = [s for e in ext for s in succ_of(gcp, e, None)]
@@ -745,7 +753,12 @@ def _deliver(mod, cls_name, attrs, chunks):
             return vm.call_method(o, name, arg, skip_hook=True)
         return hook
 
-    vm = MiniVM(mod, hooks={"stringReceived": lambda vm, o, s_: ev.append(("string", s_)), "lineReceived": line_received,
+    def string_received(vm, o, s_):
+        ev.append(("string", s_))
+        if s_ == b"PAUSE":
+            vm.call_method(o, "pauseProducing")
+
+    vm = MiniVM(mod, hooks={"stringReceived": string_received, "lineReceived": line_received,
                             "rawDataReceived": raw_received, "lineLengthExceeded": exceeded("lineLengthExceeded"),
                             "lengthLimitExceeded": exceeded("lengthLimitExceeded")})
     o = vm.new(vm.cls(cls_name))
@@ -835,6 +848,7 @@ _SEG_CASES = [
     ("intn", "Int16 strings ab,'',xyz", "Int16StringReceiver", {}, b"\x00\x02ab\x00\x00\x00\x03xyz", _ref_intn(2, 99999)),
     ("intn", "Int32 strings ab,'',xyz", "Int32StringReceiver", {}, b"\x00\x00\x00\x02ab\x00\x00\x00\x00\x00\x00\x00\x03xyz", _ref_intn(4, 99999)),
     ("intn", "Int16 strings abcd,e,fgh,''", "Int16StringReceiver", {}, b"\x00\x04abcd\x00\x01e\x00\x03fgh\x00\x00", _ref_intn(2, 99999)),
+    ("intn", "Int16 strings a,PAUSE,bc,d with pause inside a delivery", "Int16StringReceiver", {}, b"\x00\x01a\x00\x05PAUSE\x00\x02bc\x00\x01d", _ref_intn(2, 99999)),
     ("intn", "Int8 with an over-long string (MAX_LENGTH=5)", "Int8StringReceiver", {"MAX_LENGTH": 5}, b"\x02ab\x07toolong\x01z", _ref_intn(1, 5)),
     ("line-only", "lines ab,cde,'',x (MAX_LENGTH=5)", "LineOnlyReceiver", {"MAX_LENGTH": 5}, b"ab\r\ncde\r\n\r\nx\r\n", _ref_lines(5)),
     ("line-only", "line of exactly MAX_LENGTH=5 then more", "LineOnlyReceiver", {"MAX_LENGTH": 5}, b"abcde\r\nfg\r\n", _ref_lines(5)),
@@ -894,6 +908,127 @@ def _segmentation(ctx):
     ctx.extra["segmentations_evaluated"] = total
 
 
+# ---- exactly-once when the application call-out re-enters dataReceived or raises ------------------------------------------------------
+
+_REENTRY_CASES = [
+    # (rule prefix, construct class, interpreted class, first segment = exactly one message, the rest, expected messages)
+    ("intn", "IntNStringReceiver", "Int16StringReceiver", b"\x00\x02ab", b"\x00\x01c\x00\x00", [b"ab", b"c", b""]),
+    ("line-only", "LineOnlyReceiver", "LineOnlyReceiver", b"ab\r\n", b"c\r\n\r\n", [b"ab", b"c", b""]),
+    ("line", "LineReceiver", "LineReceiver", b"ab\r\n", b"c\r\n\r\n", [b"ab", b"c", b""]),
+    ("netstring", "NetstringReceiver", "NetstringReceiver", b"2:ab,", b"1:c,0:,", [b"ab", b"c", b""]),
+]
+
+
+def _deliver_hostile(mod, cls_name, chunks, mode, rest=b""):
+    """Sequential delivery of ``chunks`` with a stand-in message handler that, on its first call:
+    'plain' does nothing; 'pause-resume-now' calls self.pauseProducing() and at once self.resumeProducing() (which re-runs
+    dataReceived(b"") from inside the handler); 'pause-resume-later' calls self.pauseProducing() and the application resumes after the
+    delivery returned; 'reenter' calls dataReceived(rest) itself; 'raise' raises once (``rest`` is delivered afterwards)."""
+    got = []
+    state = {"fired": False}
+
+    def on_message(vm, o, msg):
+        got.append(msg)
+        if not state["fired"]:
+            state["fired"] = True
+            if mode == "reenter":
+                vm.call_method(o, "dataReceived", rest)
+            elif mode == "raise":
+                raise RuntimeError("handler failed once")
+            elif mode.startswith("pause"):
+                vm.call_method(o, "pauseProducing")
+                if mode == "pause-resume-now":
+                    vm.call_method(o, "resumeProducing")
+
+    vm = MiniVM(mod, hooks={"stringReceived": on_message, "lineReceived": on_message})
+    o = vm.new(vm.cls(cls_name))
+    tr = _Transport([])
+    o.attrs["transport"] = tr
+    o.attrs["connected"] = 1
+    if vm.cls(cls_name).find("makeConnection"):
+        vm.call_method(o, "makeConnection", tr)
+        o.attrs["transport"] = tr
+    for c in chunks:
+        try:
+            vm.call_method(o, "dataReceived", c)
+        except _NativeRaise as e:
+            if not (mode == "raise" and isinstance(e.native, RuntimeError)):
+                raise
+        if o.attrs.get("paused"):
+            vm.call_method(o, "resumeProducing")
+    if mode == "raise":
+        vm.call_method(o, "dataReceived", rest)
+    return got
+
+
+def _reentrancy(ctx):
+    """The statement quantifies over streams cut into *successive* deliveries, with pause/resume and mode switches where supported.
+    Armed here: what the statement names - a handler that pauses (and resumes, at once or later; resumeProducing re-runs
+    dataReceived) - for the receivers with _PauseableMixin, where it holds today; and re-entrant dataReceived for LineReceiver, whose
+    code documents and supports it (_busyReceiving).  A handler that itself calls dataReceived on the other receivers, or that raises,
+    is outside the statement: evaluated and reported as notes only."""
+    mod = ctx.mod(B)
+    armed = {("line", "reenter"): "line/exactly-once-under-reentrancy",
+             ("line", "pause-resume-now"): "line/pause-resume-inside-handler", ("line", "pause-resume-later"): "line/pause-resume-inside-handler",
+             ("intn", "pause-resume-later"): "intn/pause-inside-handler-resume-later"}
+    describe = {"reenter": "the handler of the first message calls dataReceived with the following bytes",
+                "raise": "the handler of the first message raises once, the following bytes are delivered afterwards",
+                "pause-resume-now": "the handler of the first message calls pauseProducing() and at once resumeProducing()",
+                "pause-resume-later": "the handler of the first message calls pauseProducing(), the application resumes after the delivery"}
+    for prefix, ccls, cls_name, first, rest, want in _REENTRY_CASES:
+        with ctx.section(f"exactly-once {cls_name}"):
+            try:
+                plain = _deliver_hostile(mod, cls_name, [first, rest], "plain")
+                ctx.need(plain == want, f"sequential delivery of the {cls_name} sample gives the expected messages (got {plain!r})")
+                pausable = vm_has_pause = bool(MiniVM(mod).cls(cls_name).find("pauseProducing"))
+                for mode in ("pause-resume-now", "pause-resume-later", "reenter", "raise"):
+                    if mode.startswith("pause") and not pausable:
+                        continue
+                    runs = [("in two deliveries", [first, rest])]
+                    if mode.startswith("pause"):
+                        runs.append(("in one delivery", [first + rest]))
+                    if mode in ("reenter", "raise"):
+                        runs = [("first message alone", [first])]
+                    for how, chunks in runs:
+                        got = _deliver_hostile(mod, cls_name, chunks, mode, rest=rest)
+                        rule = armed.get((prefix, mode))
+                        c = Q + f"{ccls}.dataReceived | <{describe[mode]}; {how}>"
+                        if rule:
+                            ctx.check(got == want, rule, c,
+                                      f"{cls_name}: when {describe[mode]} ({how}), the application receives {got!r} instead of {want!r}: the parser had not "
+                                      "consumed the message (buffer / offset / state) before handing it out, so the dataReceived run triggered from the "
+                                      "handler sees it again or loses data")
+                        else:
+                            ctx.note(f"not armed (outside the statement, or not holding on today's tree): {cls_name}, {describe[mode]} ({how}): "
+                                     f"delivered {got!r}, sequential delivery gives {want!r}" + ("" if got == want else "  <-- differs"))
+            except VMError as e:
+                raise AnalysisError(f"{cls_name}: construct outside the interpreter's subset: {e}")
+            except (VMRaise, _NativeRaise) as e:
+                ctx.note(f"hostile-handler evaluation of {cls_name} raised {e}")
+    # structural counterpart for the netstring state machine: state (and buffer) consumed before the call-out, one helper level deep
+    with ctx.section("netstring state before call-out"):
+        cls = ctx.cls(B, "NetstringReceiver")
+        from sa.source import methods as _methods
+        helpers = {n for n, m in _methods(cls).items() if any(isinstance(c, ast.Call) and call_name(c) == "self.stringReceived" for c in walk_local(m))}
+        f = ctx.func(B, "NetstringReceiver._consumePayload")
+        g = ctx.cfg(f)
+        q = Q + "NetstringReceiver._consumePayload"
+        outs = call_nodes(g, "self.stringReceived", *[f"self.{h}" for h in sorted(helpers)])
+        ctx.need(outs, "call-out (stringReceived, directly or through one helper) in _consumePayload")
+        resets = self_assigns(g, "_state", lambda v: src(v) == "self._PARSING_LENGTH")
+        ext = call_nodes(g, "self._extractPayload")
+        for n in outs:
+            c = ctx.construct(q, g.node(n).ast)
+            w = g.must_precede(resets, [n])
+            ctx.check(bool(resets) and w is None, "netstring/state-consumed-before-callout", c,
+                      "stringReceived runs while the parser is still in the payload state with the complete payload buffered: the parser must have consumed "
+                      "the message before handing it out - any dataReceived run started from inside the handler (the mechanism behind resume-from-handler "
+                      "in the pausable receivers) would deliver the same string again", witness=g.describe(w))
+            w = g.must_precede(ext, [n])
+            ctx.check(bool(ext) and w is None, "netstring/state-consumed-before-callout", c + " | buffer",
+                      "the payload bytes are not removed from _remainingData before stringReceived runs", witness=g.describe(w))
+
+
 def g_before(g, x, others):
     """x happens before every node of ``others`` that is reachable together with it."""
     return all(g.path([o], [x], strict=True, edge_ok=lambda a, b, l: l != "exc") is None for o in others)
@@ -904,6 +1039,7 @@ def check(ctx):
         with ctx.section(name):
             fn(ctx)
     _segmentation(ctx)
+    _reentrancy(ctx)
 
 
 _LO = "        if len(self._buffer) >= (self.MAX_LENGTH + len(self.delimiter)):\n            return self.lineLengthExceeded(self._buffer)\n"
@@ -966,6 +1102,14 @@ MUTANTS = [
     Mutant("line-only-buffer-forgets-partial-delimiter", B, "        self._buffer = lines.pop(-1)\n", "        self._buffer = lines.pop(-1).rstrip(b\"\\r\")\n", expect_rule="line-only/segmentation-invariant"),
     Mutant("line-raw-extra-data-lost-after-mode-switch", B, "        self.line_mode = 1\n        if extra:\n            return self.dataReceived(extra)\n",
            "        self.line_mode = 1\n        if extra and not self._busyReceiving:\n            return self.dataReceived(extra)\n", expect_rule="line/segmentation-invariant"),
+    Mutant("netstring-state-reset-only-after-the-handler-returned", B, "        self._state = self._PARSING_LENGTH\n        self._processPayload()\n",
+           "        self._processPayload()\n        self._state = self._PARSING_LENGTH\n", expect_rule="netstring/state-consumed-before-callout"),
+    Mutant("netstring-state-reset-in-finally", B, "        self._state = self._PARSING_LENGTH\n        self._processPayload()\n",
+           "        try:\n            self._processPayload()\n        finally:\n            self._state = self._PARSING_LENGTH\n", expect_rule="netstring/"),
+    Mutant("line-buffer-trimmed-after-the-handler", B, "                        line, self._buffer = self._buffer.split(self.delimiter, 1)\n",
+           "                        line, rest = self._buffer.split(self.delimiter, 1)\n",
+           more=[(B, "                        why = self.lineReceived(line)\n", "                        why = self.lineReceived(line)\n                        self._buffer = rest\n")],
+           expect_rule="line/exactly-once"),
     Mutant("line-only-new-before-old", B, "        lines = (self._buffer + data).split(self.delimiter)", "        lines = (data + self._buffer).split(self.delimiter)",
            expect_rule="line-only/buffer-order"),
 ]
@@ -984,5 +1128,9 @@ SILENT = [
            more=[(B, "        self._unprocessed = alldata\n\n        while len(alldata) >= (currentOffset + prefixLength) and not self.paused:",
                   "        self._unprocessed = alldata\n        if self._needed > len(alldata):\n            return\n        self._needed = 0\n\n        while len(alldata) >= (currentOffset + prefixLength) and not self.paused:"),
                  (B, "            if len(alldata) < messageEnd:\n                break\n", "            if len(alldata) < messageEnd:\n                self._needed = messageEnd - currentOffset\n                break\n")]),
+    Silent("netstring-state-reset-before-comma-check", B, "        self._checkForTrailingComma()\n        self._state = self._PARSING_LENGTH\n        self._processPayload()\n",
+           "        self._state = self._PARSING_LENGTH\n        self._checkForTrailingComma()\n        self._processPayload()\n"),
+    Silent("netstring-callout-inlined", B, "        self._state = self._PARSING_LENGTH\n        self._processPayload()\n",
+           "        self._state = self._PARSING_LENGTH\n        self.stringReceived(self._payload.getvalue()[:-1])\n"),
     Silent("netstring-buffer-append-spelled-out", B, "        self._remainingData += data\n        while self._remainingData:", "        self._remainingData = self._remainingData + data\n        while self._remainingData:"),
 ]
